@@ -44,6 +44,15 @@ Proof. exact cache_over_limit_lemma. Qed.
 Theorem C09_no_panic : forall c o, CInv c -> snd (cache_step c o) <> RPanic.
 Proof. exact cache_step_no_panic. Qed.
 
+(* read-your-write: after a successful Add the symbol reads back as exactly the value added, it
+   was not readable before (Add never overwrites), and every other symbol reads as it did *)
+Theorem C09_add_then_get : forall c k v l c',
+  CInv c -> cache_add c k v l = Ok c' ->
+  cache_get c' k = Ok v
+  /\ (forall k2, k2 <> k -> cache_get c' k2 = cache_get c k2)
+  /\ cache_get c k = Err EGen.
+Proof. exact cache_add_get_lemma. Qed.
+
 (* non-vacuity: a history with a rejected over-limit add (65539 bytes under limit 10), a
    capacity rejection, a rejected update (rolled back) and a pop reaches a state with two live symbols *)
 Example C09_nonvacuous :
@@ -60,3 +69,4 @@ Print Assumptions C09_rejected_is_noop.
 Print Assumptions C09_pop_releases_exactly.
 Print Assumptions C09_over_limit_rejected.
 Print Assumptions C09_no_panic.
+Print Assumptions C09_add_then_get.
